@@ -65,7 +65,7 @@ def run(ctx):
 
     def relevant(case, dv):
         return dv["field"] in ("engine-panic", "bestmove-line", "best_move", "model-setup", "engine-setup-panic")
-    r = SP.corr(ctx, prop, ("value", "budget", "timer"), relevant,
+    r = SP.corr(ctx, prop, ("value", "budget", "timer", "cut"), relevant,
                 "search answer (panic / bestmove line / chosen move) differs from the model", violations, cov)
     # the time-management budget: engine vs the model's formula (model/Go.v), both colours
     if r is not None:
@@ -172,7 +172,8 @@ def run(ctx):
     cov["pipe_worst_seconds_over_budget"] = round(worst_over, 3)
     cov["evaluations"] = cov.get("evaluations", 0) + gos
     cov["distinct_nontrivial"] = cov.get("distinct_nontrivial", 0) + gos
-    cov["rule"] = ("in-process: every node budget 1..size of the full search and fixed depths, engine answer vs model; "
+    cov["rule"] = ("in-process: every node budget 1..size of the full search and fixed depths, and stop / game-clock / movetime interruptions forced at "
+                   "the K-th leaf with the oracle index fed to the model, engine answer vs model; "
                    "over the pipe: 8 positions (incl. game history, near-stalemate, promotion, fifty-move edge) x a grid of "
                    "depth/nodes/movetime/clock limits down to 0, consecutive go's in one session: exactly one bestmove per go, "
                    "legal per the Coq model's move generator, readyok afterwards; latency measured with a 10x+3s allowance, "
